@@ -70,6 +70,132 @@ pub fn run(name: &str) -> Option<bool> {
             }
             bad
         }
+        // fixed: a V1 message (one addition, 200 octets) under a V2 reader (two additions): the presence bit of the
+        // addition unknown to the writer was taken from the payload
+        "ext_bitmap_local_count" => {
+            use crate::versions::{v1, v2};
+            use asn1rs::prelude::*;
+            let mut w = UperWriter::default();
+            w.write(&v1::Msg { a: 7, b: Some(vec![0x11; 200]) }).unwrap();
+            w.write(&v1::Tail(4242)).unwrap();
+            let mut r = w.as_reader();
+            let m = r.read::<v2::Msg>();
+            let t = r.read::<v2::Tail>();
+            !matches!((m, t), (Ok(m), Ok(t)) if m.a == 7 && m.b == Some(vec![0x11; 200]) && m.c.is_none() && t.0 == 4242 && r.bits_remaining() == 0)
+        }
+        // known finding: a V2 message with an addition unknown to the V1 reader: the addition is not skipped
+        "ext_unknown_not_skipped" => {
+            use crate::versions::{v1, v2};
+            use asn1rs::prelude::*;
+            let mut w = UperWriter::default();
+            w.write(&v2::Msg { a: 7, b: Some(vec![0x22; 3]), c: Some(9) }).unwrap();
+            w.write(&v2::Tail(4242)).unwrap();
+            let mut r = w.as_reader();
+            let m = r.read::<v1::Msg>();
+            let t = r.read::<v1::Tail>();
+            !matches!((m, t), (Ok(m), Ok(t)) if m.a == 7 && m.b == Some(vec![0x22; 3]) && t.0 == 4242 && r.bits_remaining() == 0)
+        }
+        "lendet_double_lb" => {
+            use asn1rs::protocol::per::{PackedRead, PackedWrite};
+            let r = std::panic::catch_unwind(|| {
+                let mut b = BitBuffer::default();
+                b.write_length_determinant(Some(1), Some(70000), 1).unwrap();
+                b.read_length_determinant(Some(1), Some(70000)).unwrap() == 1
+            });
+            !matches!(r, Ok(true))
+        }
+        "nnbi_write_no_range_check" => {
+            use asn1rs::protocol::per::PackedWrite;
+            let mut b = BitBuffer::default();
+            let a = b.write_non_negative_binary_integer(None, Some(3), 7).is_ok();
+            let c = b.write_length_determinant(None, Some(10), 20).is_ok();
+            a || c
+        }
+        "nnbi_read_above_upper" => {
+            use asn1rs::protocol::per::PackedRead;
+            let r = std::panic::catch_unwind(|| {
+                let mut b = BitBuffer::from_bits(vec![0xC0], 2);
+                b.read_constrained_whole_number(i64::MAX - 2, i64::MAX).is_err()
+            });
+            !matches!(r, Ok(true))
+        }
+        "cwn_single_value_and_wide_range" => {
+            use asn1rs::protocol::per::{PackedRead, PackedWrite};
+            let mut b = BitBuffer::default();
+            let single = b.write_constrained_whole_number(5, 5, 6).is_ok();
+            let wide = std::panic::catch_unwind(|| {
+                let mut b = BitBuffer::default();
+                b.write_constrained_whole_number(i64::MIN, i64::MAX, -3).unwrap();
+                b.read_constrained_whole_number(i64::MIN, i64::MAX).unwrap() == -3
+            });
+            single || !matches!(wide, Ok(true))
+        }
+        "semi_read_overflow_enum_underflow" => {
+            use asn1rs::protocol::per::PackedRead;
+            let a = std::panic::catch_unwind(|| {
+                // length 8, value 0xFFFF_FFFF_FFFF_FFFF, lower bound 5
+                let mut b = BitBuffer::from_bytes(vec![0x08, 0xFF, 0xFF, 0xFF, 0xFF, 0xFF, 0xFF, 0xFF, 0xFF]);
+                b.read_semi_constrained_whole_number(5).is_err()
+            });
+            let c = std::panic::catch_unwind(|| {
+                let mut b = BitBuffer::from_bytes(vec![0x00]);
+                let _ = b.read_enumeration_index(0, false);
+                true
+            });
+            !matches!(a, Ok(true)) || !matches!(c, Ok(true))
+        }
+        "twos_complement_write_args" => {
+            use asn1rs::protocol::per::PackedWrite;
+            let a = std::panic::catch_unwind(|| BitBuffer::default().write_2s_compliment_binary_integer(65, 1).is_err());
+            let c = BitBuffer::default().write_2s_compliment_binary_integer(8, 300).is_ok();
+            !matches!(a, Ok(true)) || c
+        }
+        "semi_zero_without_octet" => {
+            use asn1rs::protocol::per::PackedWrite;
+            let mut b = BitBuffer::default();
+            b.write_semi_constrained_whole_number(7, 7).unwrap();
+            b.content() != [0x01, 0x00]
+        }
+        "semi_write_overflow" => {
+            use asn1rs::protocol::per::{PackedRead, PackedWrite};
+            let r = std::panic::catch_unwind(|| {
+                let mut b = BitBuffer::default();
+                b.write_semi_constrained_whole_number(i64::MIN, 1).unwrap();
+                b.read_semi_constrained_whole_number(i64::MIN).unwrap() == 1
+            });
+            !matches!(r, Ok(true))
+        }
+        "lendet_fixed_64k_unchecked" => {
+            use asn1rs::protocol::per::PackedWrite;
+            BitBuffer::default().write_length_determinant(Some(70000), Some(70000), 5).is_ok()
+        }
+        "lendet_fragment_count_truncated" => {
+            use asn1rs::protocol::per::PackedWrite;
+            let mut b = BitBuffer::default();
+            let f = b.write_length_determinant(None, None, 256 * 16384).unwrap();
+            f != Some(65536) || b.content() != [0xC4]
+        }
+        "semi_read_rejects_representable" => {
+            use asn1rs::protocol::per::{PackedRead, PackedWrite};
+            let mut b = BitBuffer::default();
+            b.write_semi_constrained_whole_number(-5, i64::MAX - 1).unwrap();
+            !matches!(b.read_semi_constrained_whole_number(-5), Ok(v) if v == i64::MAX - 1)
+        }
+        "open_type_limit_not_applied" => {
+            use asn1rs::prelude::*;
+            // open type of 1 octet announced; the closure tries to read 16 bits and must fail, the data behind stays
+            let data = [0xABu8, 0xCD, 0xEF];
+            let mut r = UperReader::from((&data[..], 24));
+            let inner = r.read_whole_sub_slice(1, |r| {
+                let mut got = 0usize;
+                while r.bits_remaining() > 0 {
+                    got += r.bits_remaining().min(1);
+                    let _ = r.read_bit_field_entry(true)?;
+                }
+                Ok(got)
+            });
+            !matches!(inner, Ok(8)) || r.bits_remaining() != 16
+        }
         _ => return None,
     })
 }
